@@ -12,6 +12,7 @@ from fractions import Fraction
 import numpy as np
 
 from ..models import ramses as M1
+from ..models import units as M2
 from ..runner import Acc, my_share
 from . import _arr, _load, C13
 
@@ -240,6 +241,13 @@ def cases(thorough):
                 for o in origins[::3]:
                     for s in ([0.5, 0.5, 0.5], [2.0, 0.5, 2.0], [0.5, 2.0, 2.0], [2.0, 2.0, 0.5]):
                         yield {"fn": "box", "pos_unit": pu, "arg_unit": axis_units[0], "axis_units": list(axis_units), "form": form, "origin": list(o), "size": s, "ds": "full"}
+    # sizes written in compound length units (a velocity times a time, a length times a ratio of lengths); off-lattice sizes, so that no
+    # point lies on the surface and the inexact factor of such units cannot decide a membership
+    for cu in ("km/s*Myr", "pc*cm/au", "km*s/yr"):
+        for o in origins[::3]:
+            for form in forms:
+                yield {"fn": "sphere", "pos_unit": "m", "arg_unit": cu, "form": form, "origin": list(o), "size": 0.55, "ds": "full"}
+                yield {"fn": "box", "pos_unit": "cm", "arg_unit": cu, "form": form, "origin": list(o), "size": [0.6, 1.1, 0.35], "ds": "full"}
     for o in origins[::2]:
         for r in (0.5, 1.0):
             yield {"fn": "sphere", "pos_unit": "m", "arg_unit": "cm", "form": "Array", "origin": list(o), "size": r, "ds": "regrouped"}
@@ -265,6 +273,9 @@ def run_case(acc, idx, c):
     ds, spec = build_dataset(c["ds"], c["pos_unit"])
     before = snapshot_ds(ds)
     scale = {"m": 1.0, "cm": 0.01}
+    if c["arg_unit"] not in scale:
+        # a compound unit: its size in metres, from the model's own reading of the string
+        scale[c["arg_unit"]] = M2.info_of_string(c["arg_unit"])[0] / 100.0
     # size / origin are specified in position units (exact dyadics), expressed in arg_unit for the call
     f = scale[c["pos_unit"]] / scale[c["arg_unit"]]
     origin = osyris.Vector(*[np.float64(x) for x in c["origin"]], unit=c["pos_unit"])
